@@ -140,7 +140,15 @@ static std::unique_ptr<Oomd::Config2::IR::Root> parseConfig(
   std::stringstream buf;
   buf << conf_file.rdbuf();
   Oomd::Config2::JsonConfigParser json_parser;
-  auto ir = json_parser.parse(buf.str());
+  std::unique_ptr<Oomd::Config2::IR::Root> ir;
+  try {
+    ir = json_parser.parse(buf.str());
+  } catch (const std::exception& e) {
+    // Malformed JSON or a value of the wrong JSON type: reject, don't abort
+    std::cerr << "Could not parse conf_file=" << flag_conf_file << ": "
+              << e.what() << std::endl;
+    return nullptr;
+  }
   if (!ir) {
     std::cerr << "Could not parse conf_file=" << flag_conf_file << std::endl;
     return nullptr;
